@@ -167,5 +167,5 @@ func (checker *TimestampChecker) OnError(t *ast.Task) error {
 }
 
 func (checker *TimestampChecker) timestampFilePath(t *ast.Task) string {
-	return filepath.Join(checker.tempDir, "timestamp", normalizeFilename(t.Name()))
+	return filepath.Join(checker.tempDir, "timestamp", stateFilename(t.Name()))
 }
